@@ -244,7 +244,10 @@ def monC09 (h : Hist) : Option String :=
       if prev.any (fun r => r.n > rj.n) then none else
       if h.reqs.any (fun r => r.n > rj.n && r.n < ri.n && !Spec.ianaSafe.contains r.method) then none else
       let e ← storedBy h rj.n
-      let s := storedOf e
+      -- the stored response as the origin's reply defines it (ghost: its header with the Date a recipient must add
+      -- when there is none, the instants of the exchange) where that is defined, else the stored copy: a cache that
+      -- WRITES a wrong Date or instant makes a fresh response look stale to itself, and that is a miss all the same
+      let s := (h.ghostAt ri.n).getD (storedOf e)
       let members := varyMembers e.resp.header
       let tokenJ := tokenOf e.resp.body
       if !isPlainGet rj || members.contains ['*'] then none else
